@@ -120,14 +120,13 @@ def list_len(t, env):
     raise Unknown(f"list {t[0]}")
 
 
-def raises_on(fr, env):
+def raises_on(fr, env, prog=None, funcs=None):
     """Does the function raise for the witness?  True / False / None (not decidable)."""
+    from lcmsa import teval
+
     try:
-        for conds, _exc, _node in fr.raises:
-            if all(_truth(c, env) for c in conds):
-                return True
-        return False
-    except Unknown:
+        return teval.raises_on(prog, fr, env, funcs)[0]
+    except (teval.Unknown, ZeroDivisionError, RecursionError, TypeError, AttributeError, KeyError):
         return None
 
 
@@ -151,6 +150,63 @@ LIN_WITNESSES = [
     ((-INF, 2, 3), True), ((1, INF, 3), True), ((None, 2, 3), True),
 ]
 LOG_EXTRA = [((0, 2, 3), True), ((-1, 2, 3), True), ((0.0, 2.0, 3), True), ((1e-3, 2, 3), False), ((1, 10, 2), False)]
+
+
+# category classes (field name -> code) -> must the DiscreteGrid constructor reject them?
+DISCRETE_WITNESSES = [
+    ({"a": 0}, False), ({"a": 0, "b": 1}, False), ({"x": 0, "y": 1, "z": 2}, False), ({"a": 0, "b": 1, "c": 2, "d": 3}, False),
+    ({}, True), ({"a": 1}, True), ({"a": 1, "b": 2}, True), ({"a": 0, "b": 2}, True), ({"a": 0, "b": 1, "c": 3}, True),
+    ({"a": 0, "b": 0}, True), ({"a": 0, "b": 1, "c": 1}, True), ({"a": "x"}, True), ({"a": 0, "b": "1"}, True),
+    ({"a": 0, "b": 2, "c": 1}, True), ({"a": 1, "b": 0}, True), ({"a": 0, "b": 1.5, "c": 2}, True),
+    ({"a": 0, "b": 2, "c": 1, "d": 3}, True), ({"a": 0, "b": None}, True), ({"a": -1, "b": 0}, True),
+    ({"a": 0, "b": 3, "c": 2}, True), ({"a": 0.5}, True),
+]
+
+
+def _discrete_grid_witnesses(ctx, prog):
+    """DiscreteGrid accepts exactly the category classes whose codes are 0, 1, ..., n-1 in field order."""
+    from lcmsa.teval import Witness
+
+    vq = f"{G}._validate_discrete_grid"
+    if vq not in prog.funcs:
+        ctx.undecided("G:discrete:validator", f"{vq} not found (anchor vanished)")
+        return
+    vfr = prog.frame(vq)
+    where = prog.node_where(vfr.module, prog.funcs[vq].node)
+    pq = f"{G}.DiscreteGrid.__init__"
+    if pq in prog.funcs:
+        pfr = prog.frame(pq)
+        call = [t for c, t, _n in pfr.effects if callee_name(t) == vq and not c]
+        ok = bool(call) and (kw(call[0], "category_class") or (call[0][2][0] if call[0][2] else None)) == ("param", pq, "category_class")
+        ctx.ob("G:discrete:validated-in-constructor", ok, prog.node_where(pfr.module, prog.funcs[pq].node),
+               "DiscreteGrid.__init__ validates its category class unconditionally" if ok else
+               "the constructor does not pass its category class to the validator unconditionally")
+    pname = vfr.params[0] if vfr.params else "category_class"
+    def first(a, k):
+        return a[0] if a else next(iter(k.values()))
+
+    funcs = {
+        "dataclasses.is_dataclass": lambda *a, **k: isinstance(first(a, k), Witness) and first(a, k).is_dc,
+        "dataclasses.fields": lambda *a, **k: [Witness(name=n) for n in first(a, k).fields],
+        "builtins.getattr": lambda c, n, *d: c.fields[n] if isinstance(c, Witness) and hasattr(c, "fields") else getattr(c, n, *d),
+        f"{G}._get_field_names_and_values": lambda *a, **k: dict(first(a, k).fields),
+        "lcm.utils.format_messages": lambda *a, **k: str(first(a, k)),
+    }
+    for fields, want in [*DISCRETE_WITNESSES, (None, True)]:
+        w = Witness(is_dc=fields is not None, fields=fields or {})
+        label = "not-a-dataclass" if fields is None else str(list(fields.values()))
+        got = raises_on(vfr, {("param", vq, pname): w}, prog, funcs)
+        key = f"G:discrete:{'rejects' if want else 'accepts'}:{label}"
+        ctx.count("discrete_witnesses")
+        if got is None:
+            ctx.undecided(key, "guard expression outside the interpreter's vocabulary", where)
+            continue
+        ctx.ob(key, got == want, where,
+               (f"category codes {label} are rejected at construction" if want else f"valid category codes {label} are accepted")
+               if got == want else
+               (f"category codes {label} are ACCEPTED although they are not 0, 1, ..., n-1 in order" if want
+                else f"valid category codes {label} are rejected"), lhs=label, rhs="reject" if want else "accept")
+    ctx.floor("discrete_witnesses", 20)
 
 
 @rule("R12.GUARD")
@@ -182,14 +238,14 @@ def grid_guards(ctx: Ctx):
 
     def rejected(kind, w):
         s, e, n = w
-        r = raises_on(vfr, {P("start"): s, P("stop"): e, P("n_points"): n})
+        r = raises_on(vfr, {P("start"): s, P("stop"): e, P("n_points"): n}, prog)
         if r is True or kind == "lin":
             return r
         if lfr is None:
             return r
         if not calls_super:
             r = False  # the base validation is skipped
-        r2 = raises_on(lfr, {("attr", lself, "start"): s, ("attr", lself, "stop"): e, ("attr", lself, "n_points"): n})
+        r2 = raises_on(lfr, {("attr", lself, "start"): s, ("attr", lself, "stop"): e, ("attr", lself, "n_points"): n}, prog)
         if r is None or r2 is None:
             return None
         return r or r2
@@ -213,6 +269,7 @@ def grid_guards(ctx: Ctx):
                    (f"{kind}space grid (start, stop, n_points) = {w} is ACCEPTED although it cannot materialise to finite, "
                     "strictly increasing values" if want else f"valid {kind}space grid {w} is rejected"),
                    lhs=str(w), rhs="reject" if want else "accept")
+    _discrete_grid_witnesses(ctx, prog)
     if lfr is not None:
         ctx.ob("G:logspace:base-validation-kept", calls_super, prog.node_where(lfr.module, prog.funcs[lq].node),
                "LogspaceGrid.__post_init__ still runs the base validation" if calls_super else
